@@ -6,7 +6,7 @@
  *        op      := open | read | write | stat | realpath | close
  *        target  := fd:0 | fd:1 | path:<path relative to root>
  *        when    := nth:<k> | from:<k> | always         (k counts matching calls from 1)
- *        action  := errno:<NAME> | short:<n> | eintr
+ *        action  := errno:<NAME> | short:<n> | eintr | zero   (zero: a write that accepts nothing and reports no error)
  *   VERIF_SHIM_LOG   file; every watched call is appended:
  *        <seq> <op> <target> given=<path|-> n=<count|-> -> <ret>|E<NAME> [inj]
  * The first log line is the sentinel "#shim v1 root=<root>".
@@ -32,7 +32,7 @@
 enum { OP_OPEN, OP_READ, OP_WRITE, OP_STAT, OP_REALPATH, OP_CLOSE, OP_N };
 static const char *op_names[OP_N] = {"open", "read", "write", "stat", "realpath", "close"};
 enum { W_NTH, W_FROM, W_ALWAYS };
-enum { A_ERRNO, A_SHORT, A_EINTR };
+enum { A_ERRNO, A_SHORT, A_EINTR, A_ZERO };
 
 struct rule {
     int op;
@@ -113,6 +113,7 @@ static void parse_plan(const char *path) {
         else ru->when = W_ALWAYS;
         if (strncmp(act, "errno:", 6) == 0) { ru->act = A_ERRNO; ru->arg = errno_val(act + 6); }
         else if (strncmp(act, "short:", 6) == 0) { ru->act = A_SHORT; ru->arg = atol(act + 6); }
+        else if (strcmp(act, "zero") == 0) { ru->act = A_ZERO; ru->arg = 0; }
         else ru->act = A_EINTR;
         n_rules++;
     }
@@ -217,7 +218,7 @@ static int do_open(int dirfd, const char *path, int flags, mode_t mode, int is64
     (void)is64;
     if (!t) return (int)syscall(SYS_openat, dirfd, path, flags, mode);
     struct rule *ru = match(OP_OPEN, t);
-    if (ru && ru->act != A_SHORT) {
+    if (ru && ru->act != A_SHORT && ru->act != A_ZERO) {
         int e = ru->act == A_EINTR ? EINTR : (int)ru->arg;
         log_call(OP_OPEN, t, path, flags, -1, e, 1);
         errno = e;
@@ -291,6 +292,7 @@ ssize_t write(int fd, const void *buf, size_t count) {
         inj = 1;
         if (ru->act == A_ERRNO) { log_call(OP_WRITE, t, NULL, (long)count, -1, (int)ru->arg, 1); errno = (int)ru->arg; return -1; }
         if (ru->act == A_EINTR) { log_call(OP_WRITE, t, NULL, (long)count, -1, EINTR, 1); errno = EINTR; return -1; }
+        if (ru->act == A_ZERO) { log_call(OP_WRITE, t, NULL, (long)count, 0, 0, 1); return 0; } /* nothing accepted, no error */
         if (ru->arg >= 1 && (size_t)ru->arg < c) c = (size_t)ru->arg;
     }
     ssize_t r = syscall(SYS_write, fd, buf, c);
@@ -360,7 +362,7 @@ static int stat_fault(int dirfd, const char *path, const char *fn) {
     const char *t = (path && path[0]) ? watched_rel(dirfd, path, rel) : NULL;
     if (!t) return 0;
     struct rule *ru = match(OP_STAT, t);
-    if (ru && ru->act != A_SHORT) {
+    if (ru && ru->act != A_SHORT && ru->act != A_ZERO) {
         int e = ru->act == A_EINTR ? EINTR : (int)ru->arg;
         log_call(OP_STAT, t, path, -1, -1, e, 1);
         errno = e;
@@ -436,7 +438,7 @@ char *realpath(const char *path, char *resolved) {
     const char *t = watched_rel(AT_FDCWD, path, rel);
     if (!t) return real_realpath(path, resolved);
     struct rule *ru = match(OP_REALPATH, t);
-    if (ru && ru->act != A_SHORT) {
+    if (ru && ru->act != A_SHORT && ru->act != A_ZERO) {
         int e = ru->act == A_EINTR ? EINTR : (int)ru->arg;
         log_call(OP_REALPATH, t, path, -1, -1, e, 1);
         errno = e;
